@@ -789,6 +789,12 @@ def py_equal(interp, a, b):
         return a is b
     if isinstance(a, Instance) or isinstance(b, Instance):
         return a is b
+    if isinstance(a, SSet) and isinstance(b, SSet):
+        # set == set: mutual inclusion (T6; the items of an SSet are pairwise !=)
+        ts = [contains(interp, tuple(b.items), x) for x in a.items] + [contains(interp, tuple(a.items), y) for y in b.items]
+        if all(isinstance(t, bool) for t in ts):
+            return all(ts)
+        return SBool(z3.And([_t(t) for t in ts]))
     if isinstance(a, Seq) and isinstance(b, Seq):
         if a is b:
             return True
